@@ -138,6 +138,9 @@ func fixMTrainPlatformsInBushwick(trip *gtfsrt.TripUpdate) {
 		if !buggyStationIDs[stopID[:3]] {
 			continue
 		}
+		if stopID[3] != 'N' && stopID[3] != 'S' {
+			continue
+		}
 		newDirection := 'N'
 		if stopID[3] == 'N' {
 			newDirection = 'S'
